@@ -8,6 +8,7 @@ from nbsym import engine as E
 
 ID = "C20"
 TITLE = "atomize: one line per SNVPOS at POS+SNVPOS-1, REF/ALT bases numbered by first appearance, phased GT projected per site, PS = POS, AC/ACP/DS marginalised; every record shape assemble/call/call-exact can emit is accepted"
+TECHNIQUE = "solver-driven exhaustive enumeration of bounded haplotype records through the repo's shadow-loaded atomize code (numpy-unicode/pandas realise symbolic values) against an independent projection oracle"
 ENCODED = ["mchap.application.atomize.format_vcf_snv_block", "mchap.application.atomize.get_haplotype_snvs", "mchap.application.atomize.get_haplotype_snv_indices",
            "mchap.application.atomize.format_snv_alleles", "mchap.application.atomize.get_sample_snv_GT", "mchap.application.atomize.get_sample_snv_ACP",
            "mchap.application.atomize.get_sample_snv_depth", "mchap.application.atomize.get_sample_snv_PQ", "mchap.application.atomize.format_allele_floats"]
